@@ -83,6 +83,14 @@ MUX = {
         nontrivial=lambda r: r.get("ev") == "dg_get" and r.get("res") == "ok",
         rule="a trace counts when a datagram was delivered to the receiving application",
     ),
+    "C13": dict(
+        title="the stream-to-socket bridge",
+        mc=dict(quick=["MC_Bridge_q"], thorough=["MC_Bridge"]),
+        needs=["ABridgeStart", "ABridgePoll", "TRecv", "TSend"],
+        sims=dict(quick=[("bridge", 200, 90)], thorough=[("bridge", 5000, 140)]),
+        nontrivial=lambda r: r.get("ev") == "bridge_poll" and (r.get("lc", 0) > 0 or len(r.get("lw", [])) > 0),
+        rule="a trace counts when a bridge relayed bytes in at least one direction",
+    ),
     "C15": dict(
         title="bind requests",
         mc=dict(quick=["MC_Bind_q"], thorough=["MC_Bind"]),
@@ -162,6 +170,8 @@ def attribute(f):
         props |= {"C15"}
         if res == "closed" or "closed" in exp_res:
             props |= {"C08"}
+    elif ev in ("bridge_start", "bridge_poll", "bridge_drop"):
+        props |= {"C13"}
     elif ev == "drop_mux":
         props |= {"C08"}
     elif ev == "quiesce":
